@@ -179,6 +179,18 @@ fn const_value_json<'tcx>(tcx: TyCtxt<'tcx>, val: mir::ConstValue, ty: Ty<'tcx>)
                         if len <= 4096 && start <= len {
                             let bytes = a.inspect_with_uninit_and_ptr_outside_interpreter(start..len);
                             o.put("deref_bytes", J::s(bytes_hex(bytes)));
+                            // a promoted `&Struct` constant: where the pointee's (declared-order) fields sit
+                            if let Some(pointee) = ty.builtin_deref(true) {
+                                if let Ok(l) = tcx.layout_of(TypingEnv::fully_monomorphized().as_query_input(pointee)) {
+                                    if let rustc_abi::FieldsShape::Arbitrary { offsets, .. } = &l.fields {
+                                        let mut offs = Vec::new();
+                                        for (_, off) in offsets.iter_enumerated() {
+                                            offs.push(J::UInt(off.bytes() as u128));
+                                        }
+                                        o.put("deref_field_offsets", J::Arr(offs));
+                                    }
+                                }
+                            }
                         }
                     }
                 }
@@ -209,6 +221,16 @@ fn const_value_json<'tcx>(tcx: TyCtxt<'tcx>, val: mir::ConstValue, ty: Ty<'tcx>)
                 if end - start <= 4096 {
                     let bytes = a.inspect_with_uninit_and_ptr_outside_interpreter(start..end);
                     o.put("bytes", J::s(bytes_hex(bytes)));
+                    // where the (declared-order) fields of a struct constant sit in those bytes
+                    if let Ok(l) = tcx.layout_of(TypingEnv::fully_monomorphized().as_query_input(ty)) {
+                        if let rustc_abi::FieldsShape::Arbitrary { offsets, .. } = &l.fields {
+                            let mut offs = Vec::new();
+                            for (_, off) in offsets.iter_enumerated() {
+                                offs.push(J::UInt(off.bytes() as u128));
+                            }
+                            o.put("field_offsets", J::Arr(offs));
+                        }
+                    }
                     // has pointers?
                     o.put("has_ptrs", J::Bool(!a.provenance().ptrs().is_empty()));
                 }
